@@ -56,7 +56,7 @@ def property_check(ctx, case, code, tt, backends=False):
 
     def near(x):  # present up to pulser's identity tolerance: near-duplicates are merged (F-08 fix)
         i = bisect.bisect_left(tt, x)
-        return any(0 <= j < len(tt) and abs(tt[j] - x) <= tg.TOLU * dur * 1.001 + 4 * math.ulp(x)
+        return any(0 <= j < len(tt) and abs(tt[j] - x) <= tg.TOLU * dur * 1.01 + 4 * math.ulp(x)
                    for j in (i - 1, i, i + 1))
 
     n = math.floor(dur / dt)
@@ -204,6 +204,10 @@ def run(ctx):
             c["dur_mod"] = c["dur"] + ctx.rng.choice([0, 4, 48, 100])
             c["dur_eff"] = c["dur_mod"]
         cases.append(c)
+    for _ in range(ctx.n(200, 3000)):  # clusters: requested times 1e-15..1e-7 (relative) off another candidate
+        c = tg.gen_cluster_case(ctx.rng, max_points=ctx.rng.choice([40, 300, 1500]))
+        c["kind"] = "cluster"
+        cases.append(c)
     for _ in range(nbig):  # python-only oracle + in-Coq comparison: grids up to 1e5 points
         c = tg.gen_case(ctx.rng, max_points=100000)
         c["kind"] = "well-formed-big"
@@ -328,7 +332,10 @@ def run(ctx):
 
     ctx.extra["input_distribution"] = {f"{k[0]}/code{k[1]}": v for k, v in sorted(hist.items())}
     ctx.rule = ("adapter cases: durations 1..10000, dt from 0.1 to above the duration (decimal and random), 0-3 "
-                "observables with own or default times (decimal fractions k*dt/T, rationals, 0, 1, random), default "
+                "observables with own or default times (decimal fractions k*dt/T, rationals, 0, 1, random; clusters: a "
+                "requested time at relative distance log-uniform in [1e-15, 1e-7] from a multiple of dt / a time of the "
+                "same observable / of another observable / of the default, anchored anywhere in [0,1] incl. 0, 1 and "
+                "the last multiple of dt), default "
                 "'Full', modulation on/off, malformed stream (dt 0/negative/nan, duration 0, Full+None, no observables); "
                 "real pulser sequences through PulserData and both backends (step loop); SPAM noise trajectories; "
                 "non-trivial = grid with more than 3 points / more than one trajectory; distinct by input hash")
